@@ -1,0 +1,21 @@
+//go:build verif
+// +build verif
+
+package zap
+
+import (
+	segment "github.com/blevesearch/scorch_segment_api/v2"
+)
+
+// Hooks for the verification harness in /verif. Compiled only with -tags verif;
+// they read private state and change nothing.
+
+// VerifSegmentRefs returns the reference count of an opened segment (-1 for
+// segments that are not reference counted). It does not take the segment's lock:
+// the harness calls it only while no other goroutine uses the segment.
+func VerifSegmentRefs(s segment.Segment) int64 {
+	if seg, ok := s.(*Segment); ok {
+		return seg.refs
+	}
+	return -1
+}
